@@ -1,6 +1,7 @@
 import UgoVerif.Proofs.EvalFix
 import UgoVerif.Proofs.EvalSym
 import UgoVerif.Proofs.EvalLocals
+import UgoVerif.Proofs.EvalMono
 /-
   C10 — evaluating fragments one by one equals evaluating them as one script.
 
@@ -180,7 +181,7 @@ theorem session_table_monotone (bs : List (String × Nat)) (t : Table) :
     obtain ⟨t', h1, h2, _⟩ := resolve_keeps bs t.disabled m t
     exact ⟨t', h1, by rw [h2]; exact hd⟩
   · intro k r
-    obtain ⟨t', r', h1, h2, _, h4, h5⟩ := updateMaxDefs_head k t r
+    obtain ⟨t', r', h1, h2, _, h4, h5⟩ := Proofs.EvalSym.updateMaxDefs_head k t r
     exact ⟨t', r', h1, h2, h4, h5⟩
 
 /-- non-vacuity: `a` declared by an earlier fragment at local slot 3 -/
@@ -189,16 +190,86 @@ example : resolveIn [("len", 5)] [] "a" [{ store := [("a", { name := "a", index 
   simp [resolveIn, lookupSym]
 example : (resolveIn [("len", 5)] ["len"] "len" [{ disabled := ["len"] }]).1 = none := by decide
 
-/-- the statement for whole compiles (NOT proved: `compileStmts` is a `partial def` today):
-    whatever a fragment compiles to, succeeds or fails, the session's root table is extended
-    except for names the fragment re-declares with `global` -/
-def session_table_monotone_full : Prop :=
-  ∀ (bs : List (String × Nat)) (t : Table) (cs : Array Const) (file : List Stmt),
-    (∀ n sym, lookupSym n t.store = some sym →
-      ∃ sym', lookupSym n (compileSession bs t cs file).table.store = some sym' ∧
-        (sym'.scope = sym.scope ∧ (sym'.index = sym.index ∨ sym.scope = .global))) ∧
-    (compileSession bs t cs file).table.disabled = t.disabled ∧
-    t.maxDefinition ≤ (compileSession bs t cs file).table.maxDefinition
+/-- **session_table_monotone_full**: a whole `compileSession` of a fragment — whatever it compiles
+    to, and also when it fails or panics half-way — extends the session's root table
+    (`Compile.RootExt`):
+    * every earlier binding that is not merely the cache entry of a builtin that was used keeps its
+      scope, constness, constant-literal value and name, and its index unless it is a global (a
+      `global` re-declaration recomputes the index of the name constant) — `Compile.SymKeep`;
+    * the disabled builtins are the same; `maxDefinition` (NumLocals) and `numDefinition` never go
+      down; no global symbol is left waiting for its name constant (`NoPending`, so the theorem
+      applies again to the next fragment);
+    and on success the new constant pool is the old one with constants appended.
+    Hypothesis `NoPending t`: the table holds no global symbol with index −1 (true of a new session
+    and preserved).  Proof: `Proofs/CompileMono*.lean` — every function of the compiler model is
+    monotone (`allMono`, the size induction of C05), `Proofs/EvalMono.lean` for `compileSession`. -/
+theorem session_table_monotone_full (bs : List (String × Nat)) (t : Table) (cs : Array Const) (file : List Stmt)
+    (hp : NoPending t) :
+    RootExt t (compileSession bs t cs file).table ∧
+    (∀ bc, (compileSession bs t cs file).result = .ok bc → IsPre cs bc.constants) :=
+  UgoVerif.Proofs.EvalMono.compileSession_spec bs t cs file hp
+
+/-- a name an earlier fragment declared resolves, after any later compile, to a symbol of the same
+    scope, index (globals excepted), constness and literal value; resolving does not touch the table -/
+theorem session_resolve_stable (bs : List (String × Nat)) (t : Table) (cs : Array Const) (file : List Stmt)
+    (hp : NoPending t) (n : String) (y : Symbol) (hy : lookupSym n t.store = some y) (hb : y.scope ≠ .builtin) :
+    ∃ y', resolveIn bs (compileSession bs t cs file).table.disabled n [(compileSession bs t cs file).table]
+        = (some y', [(compileSession bs t cs file).table]) ∧ SymKeep y y' := by
+  obtain ⟨y', h1, h2⟩ := (session_table_monotone_full bs t cs file hp).1.keep n y hy hb
+  exact ⟨y', resolve_bound bs _ n _ y' h1, h2⟩
+
+/-- the hypothesis holds of a new session, and of a table with a global that has its constant -/
+example (d : List String) : NoPending { disabled := d } := fun p h => by simp at h
+example : NoPending { store := [("g", { name := "g", index := 4, scope := .global })] } := by
+  intro p hp _
+  simp at hp
+  subst hp
+  decide
+
+theorem evalRun_table (F : FloatOps) (fuel : Nat) (s : Session) (file : List Stmt) :
+    (evalRun F fuel s file).session.table = (compileSession s.builtins s.table s.constants file).table ∧
+    (evalRun F fuel s file).session.builtins = s.builtins ∧
+    ((evalRun F fuel s file).session.constants = s.constants ∨
+      ∃ bc, (compileSession s.builtins s.table s.constants file).result = .ok bc ∧
+        (evalRun F fuel s file).session.constants = bc.constants) := by
+  unfold evalRun
+  simp only
+  split
+  · exact ⟨rfl, rfl, .inl rfl⟩
+  · rename_i bc hbc
+    split
+    · exact ⟨rfl, rfl, .inr ⟨bc, hbc, rfl⟩⟩
+    · exact ⟨rfl, rfl, .inr ⟨bc, hbc, rfl⟩⟩
+    · split
+      · exact ⟨rfl, rfl, .inr ⟨bc, hbc, rfl⟩⟩
+      · exact ⟨rfl, rfl, .inr ⟨bc, hbc, rfl⟩⟩
+      · exact ⟨rfl, rfl, .inr ⟨bc, hbc, rfl⟩⟩
+
+/-- **every later fragment**: along a whole session each `Eval.Run` leaves a root table that
+    extends the table the session started with, and a constant pool that extends the first one -/
+theorem evalSession_monotone (F : FloatOps) (fuel : Nat) : ∀ (frags : List (List Stmt)) (s : Session),
+    NoPending s.table → ∀ o ∈ evalSession F fuel s frags,
+      RootExt s.table o.session.table ∧ IsPre s.constants o.session.constants
+  | [], _, _, o, ho => by simp [evalSession] at ho
+  | f :: fs, s, hp, o, ho => by
+    have hstep := session_table_monotone_full s.builtins s.table s.constants f hp
+    obtain ⟨ht, _, hc⟩ := evalRun_table F fuel s f
+    have h1 : RootExt s.table (evalRun F fuel s f).session.table := by rw [ht]; exact hstep.1
+    have h2 : IsPre s.constants (evalRun F fuel s f).session.constants := by
+      rcases hc with hc | ⟨bc, hbc, hc⟩
+      · rw [hc]; exact IsPre.refl _
+      · rw [hc]; exact hstep.2 bc hbc
+    unfold evalSession at ho
+    simp only at ho
+    split at ho
+    · simp at ho
+      rcases ho with rfl | ho
+      · exact ⟨h1, h2⟩
+      · have := evalSession_monotone F fuel fs (evalRun F fuel s f).session (h1.pend hp) o ho
+        exact ⟨h1.trans this.1, h2.trans this.2⟩
+    · simp at ho
+      subst ho
+      exact ⟨h1, h2⟩
 
 /-! ### the headline -/
 
